@@ -25,6 +25,14 @@ RULE = ("case 'enc' = (frame 1..64 bytes, 1..8 pairwise non-overlapping in-frame
         "matrix that holds a second frame with the same signal names at other bits (used first); the caller's dict must be unchanged "
         "afterwards; decode-then-encode is repeated through CanMatrix.decode/encode of such a matrix. A result that depends on any of "
         "these is a failure. "
+        "Matrices: half of the cases carry a matrix history 'm' - the frame's identifier (11 bit or 29 bit, number 0, 1, 0x7FF, 0x800, "
+        "2^29-1, J1939-like, random) and a sequence of public calls that builds the matrix around it: further frames with the same signal "
+        "names at other bits whose identifier has the SAME NUMBER with the other width (or the same low 11 bits), frames with the same "
+        "identifier that are taken out again (remove_frame, del_frame by object / by name), identifiers changed after add_frame (new "
+        "ArbitrationId object or edited in place; of the other frame or of the frame itself), header ids equal to the number, "
+        "frame_by_id look-ups and matrix encodes/decodes in between, the frame added first, last or in the middle.  Whenever a frame "
+        "of the matrix is the only one with its identifier, CanMatrix.encode / decode / decode_pycan with that identifier must give "
+        "what the frame's own encode / decode gives (for the frame of the case: the result judged by the specification). "
         "30 % of the frames carry signals with offset, limits and start values (start value raw != 0); decoded values are kept while other payloads are decoded before they are re-encoded. Non-trivial = distinct case with at least one supplied non-zero value / non-constant payload.")
 PARTIAL = ["struct.pack rounding for floats is trusted: float values are supplied as exactly representable non-NaN patterns",
            "value-table labels in the data dict go through phys2raw (C04) and are not generated here"]
@@ -126,6 +134,249 @@ class PlainMapping(collections.abc.Mapping):
     def __len__(self):
         return len(self._keys)
 
+# ------------------------------------------------------------------------------------------
+# matrix histories: the frame of the case lives in a CanMatrix that was built by a sequence of public calls
+#   m = {"id": [number, extended], "h": [step, ...]}     (final identifier of the frame of the case, steps in order)
+#   ["F"] | ["F", number, extended]          add the frame of the case (with another identifier first, changed by an "id" step)
+#   ["add", k, number, extended, nbytes, header_id|None]   add the frame "G<k>" (same signal names, other bits, nbytes long)
+#   ["rm", k, how]                           take G<k> out: 0 remove_frame(object), 1 del_frame(object), 2 del_frame(name)
+#   ["id", k|"F", number, extended, how]     change an identifier after add_frame: 0 new ArbitrationId object, 1 edited in place
+#   ["look", number, extended]               frame_by_id
+#   ["use", k|"F"]                           encode and decode through the matrix (compared with the frame's own answer)
+# ------------------------------------------------------------------------------------------
+STD_MAX, EXT_MAX = 0x7FF, 0x1FFFFFFF
+
+
+def _rand_id(rng):
+    if rng.random() < 0.55:
+        return [rng.choice([0, 1, 0x123, 0x123, STD_MAX, rng.randrange(STD_MAX + 1), rng.randrange(STD_MAX + 1)]), False]
+    return [rng.choice([0, 1, 0x123, STD_MAX, STD_MAX + 1, EXT_MAX, 0x18FEF100 | rng.randrange(256), 0x0CF00400,
+                        rng.randrange(STD_MAX + 1), rng.randrange(EXT_MAX + 1), rng.randrange(EXT_MAX + 1)]), True]
+
+
+def _look_alikes(rng, num, ext):
+    """identifiers that are not (num, ext) but easy to take for it"""
+    out = []
+    if num <= STD_MAX:
+        out += [[num, not ext]] * 6
+    else:
+        out += [[num & STD_MAX, False]] * 3 + [[num & STD_MAX, True]]
+    if ext:
+        out += [[num & 0x1FFFFF00 | (num + 1) & 0xFF, True], [num & 0x3FFFFFF, True]]       # other source address / priority 0
+    out += [[num ^ 1, ext], [(num + 1) & (EXT_MAX if ext else STD_MAX), ext]]
+    return [i for i in out if i != [num, ext]]
+
+
+def _present(h):
+    """({"F" | k: (number, extended)} of the frames in the matrix after the steps h, F seen) - None: the steps are no history"""
+    ids, present, seen_f = {}, [], False
+    for st in h:
+        if st[0] == "F":
+            if seen_f:
+                return None
+            seen_f = True
+            ids["F"] = tuple(st[1:3]) if len(st) > 1 else None          # None: the final identifier
+            present.append("F")
+        elif st[0] == "add":
+            if st[1] in ids:
+                return None
+            ids[st[1]] = (st[2], st[3])
+            present.append(st[1])
+        elif st[0] == "rm":
+            if st[1] not in present or st[1] == "F":
+                return None
+            present.remove(st[1])
+        elif st[0] == "id":
+            if st[1] not in ids:
+                return None
+            ids[st[1]] = (st[2], st[3])
+        elif st[0] == "use":
+            if st[1] not in present:
+                return None
+        elif st[0] != "look":
+            return None
+    return {k: ids[k] for k in present}
+
+
+def _sim(m):
+    at_end = _present(m["h"])
+    if at_end is None or "F" not in at_end:
+        return None
+    if at_end["F"] is None:
+        at_end["F"] = tuple(m["id"])
+    return at_end if at_end["F"] == tuple(m["id"]) else None
+
+
+def matrix_ok(m):
+    """a history this module speaks about: the frame of the case is in the matrix at the end, the only one with its identifier"""
+    at_end = _sim(m)
+    return at_end is not None and list(at_end.values()).count(tuple(m["id"])) == 1
+
+
+def gen_matrix(rng):
+    for _ in range(50):
+        num, ext = _rand_id(rng)
+        h = [["F"]]
+        k = 0
+        for _tpl in range(1 if rng.random() < 0.7 else 2):
+            tpl = rng.random()
+            nb = rng.choice([1, 1, 2, 3, 8])
+            hdr = (num or None) if rng.random() < 0.08 else None
+            pos = rng.randint(0, len(h))
+            if tpl < 0.45:
+                # a frame whose identifier looks like the one of the frame of the case, before or after it
+                a = rng.choice(_look_alikes(rng, num, ext))
+                h.insert(pos, ["add", k, a[0], a[1], nb, hdr])
+            elif tpl < 0.65:
+                # a frame with the same identifier (or a look-alike) that is taken out again
+                a = [num, ext] if rng.random() < 0.5 else rng.choice(_look_alikes(rng, num, ext))
+                h.insert(pos, ["add", k, a[0], a[1], nb, hdr])
+                h.insert(rng.randint(pos + 1, len(h)), ["rm", k, rng.randrange(3)])
+            elif tpl < 0.8:
+                # a frame that has the identifier when it is added and another one afterwards - or the other way round
+                a = [num, ext] if rng.random() < 0.4 else rng.choice(_look_alikes(rng, num, ext))
+                b = rng.choice([i for i in _look_alikes(rng, num, ext) if i != a] or [[(num + 2) & STD_MAX, ext]])
+                if rng.random() < 0.4:
+                    a, b = b, a
+                if b == [num, ext]:
+                    b = [num ^ 3, ext]
+                h.insert(pos, ["add", k, a[0], a[1], nb, hdr])
+                h.insert(rng.randint(pos + 1, len(h)), ["id", k, b[0], b[1], rng.randrange(2)])
+            elif tpl < 0.92:
+                # the frame of the case is added with another identifier, another frame holds (a look-alike of) the final one
+                fpos = [i for i, st in enumerate(h) if st[0] == "F"][0]
+                if len(h[fpos]) == 1:
+                    first = rng.choice(_look_alikes(rng, num, ext) + [[(num + 7) & STD_MAX, False]])
+                    h[fpos] = ["F", first[0], first[1]]
+                    h.insert(rng.randint(fpos + 1, len(h)), ["id", "F", num, ext, rng.randrange(2)])
+                a = rng.choice(_look_alikes(rng, num, ext))
+                h.insert(pos, ["add", k, a[0], a[1], nb, hdr])
+            else:
+                # a bystander
+                a = _rand_id(rng)
+                if a != [num, ext]:
+                    h.insert(pos, ["add", k, a[0], a[1], nb, hdr])
+            k += 1
+        for _ in range(rng.choice([0, 0, 1, 1, 2, 3])):
+            pos = rng.randint(1, len(h))
+            if rng.random() < 0.5:
+                a = rng.choice([[num, ext]] * 3 + _look_alikes(rng, num, ext))
+                h.insert(pos, ["look", a[0], a[1]])
+            else:
+                live = _present(h[:pos])
+                if live:
+                    h.insert(pos, ["use", rng.choice(sorted(live, key=str))])
+        m = {"id": [num, ext], "h": h}
+        if matrix_ok(m):
+            return m
+    return {"id": [0x123, False], "h": [["F"]]}
+
+
+def _sib(fd, k, num, ext, nbytes, hdr):
+    """the frame G<k>: the signal names of the frame of the case, every signal one bit wide in the last of its nbytes bytes"""
+    sigs = [F.sigdesc(d[0], 8 * (nbytes - 1) + (3 * i + 1 + k) % 8, 1, True) for i, d in enumerate(fd["sigs"])]
+    g = F.mkframe({"size": nbytes, "sigs": sigs}, name="G%d" % k, arbid=num, extended=ext)
+    if hdr:
+        g.header_id = hdr
+    return g
+
+
+def _answer(f, *args):
+    try:
+        r = f(*args)
+    except Exception as e:  # noqa
+        return "raised " + F.errname(e)
+    if isinstance(r, (bytes, bytearray)):
+        return list(r)
+    if isinstance(r, dict):
+        return sorted((repr(k), F.val_to_json(v.signal, v.raw_value), id(v.signal)) for k, v in r.items())
+    return repr(r)
+
+
+class _Message(object):
+    """what python-can hands over"""
+
+    def __init__(self, aid, data):
+        self.arbitration_id = aid.id
+        self.is_extended_id = aid.extended
+        self.data = bytearray(data)
+
+
+def _agree(db, x, data, payload, is_case_frame):
+    """None if the matrix answers for the identifier of its frame x what x answers itself (x the only frame with that identifier)"""
+    who = "the-frame" if is_case_frame else "another-frame-of-the-matrix"
+    if [f.arbitration_id == x.arbitration_id for f in db.frames].count(True) != 1 or x not in db.frames:
+        return None
+    aid = cm.ArbitrationId(x.arbitration_id.id, x.arbitration_id.extended)       # the caller's own object, as built from a bus message
+    if _answer(db.encode, aid, data) != _answer(x.encode, data):
+        return "exc:matrix-encode-differs-from-frame-encode-for-" + who
+    if db.contains_j1939 and not aid.extended:
+        return None         # (CanMatrix.decode answers {} for a standard identifier in a J1939 matrix)
+    own = _answer(x.decode, bytes(payload))
+    if _answer(db.decode, aid, bytes(payload)) != own:
+        return "exc:matrix-decode-differs-from-frame-decode-for-" + who
+    if _answer(db.decode_pycan, _Message(aid, payload)) != own:
+        return "exc:matrix-decode_pycan-differs-from-frame-decode-for-" + who
+    return None
+
+
+def _set_id(x, num, ext, how):
+    if how == 0:
+        x.arbitration_id = cm.ArbitrationId(num, ext)
+    else:
+        x.arbitration_id.id = num
+        x.arbitration_id.extended = ext
+
+
+def matrix_history(fr, fd, m, data, payload, want):
+    """build the matrix of the history m around the frame fr (its identifier is set here) and ask it along the way and at the end;
+    returns None or the name of the first disagreement.  data / payload: what is encoded / decoded with the frame of the case;
+    want: the frame's own encoding of data (already observed), which the matrix must give as well"""
+    db = cm.CanMatrix()
+    sibs = {}
+    own = {}
+
+    def ask(k):
+        x = fr if k == "F" else sibs[k]
+        if k == "F":
+            return _agree(db, x, data, payload, True)
+        names = [s.name for s in x.signals]
+        d_, p_ = own.setdefault(k, ({n_: 1 for n_ in names[::2]}, [0xA5 ^ (17 * k) & 0xFF] * x.size))
+        return _agree(db, x, d_, p_, False)
+    for st in m["h"]:
+        if st[0] == "F":
+            num, ext = st[1:3] if len(st) > 1 else m["id"]
+            fr.arbitration_id = cm.ArbitrationId(num, ext)
+            db.add_frame(fr)
+        elif st[0] == "add":
+            sibs[st[1]] = _sib(fd, *st[1:6])
+            db.add_frame(sibs[st[1]])
+        elif st[0] == "rm":
+            x = sibs[st[1]]
+            if st[2] == 0:
+                db.remove_frame(x)
+            elif st[2] == 1:
+                db.del_frame(x)
+            else:
+                db.del_frame(x.name)
+        elif st[0] == "id":
+            _set_id(fr if st[1] == "F" else sibs[st[1]], st[2], st[3], st[4])
+        elif st[0] == "look":
+            db.frame_by_id(cm.ArbitrationId(st[1], st[2]))
+        elif st[0] == "use":
+            odd = ask(st[1])
+            if odd is not None:
+                return odd + "-during-the-history"
+    if fr not in db.frames or [f.arbitration_id == fr.arbitration_id for f in db.frames].count(True) != 1:
+        raise ValueError("matrix history leaves the frame of the case out or ambiguous: %r" % (m,))
+    if want is not None and _answer(db.encode, cm.ArbitrationId(*m["id"]), data) != want:
+        return "exc:matrix-encode-differs-from-frame-encode"
+    for k in ["F"] + [k for k in sibs if sibs[k] in db.frames]:
+        odd = ask(k)
+        if odd is not None:
+            return odd
+    return None
+
 
 def gen_frame(rng):
     n = rng.choice(F.ALL_LENGTHS if rng.random() < 0.6 else F.FD_LENGTHS)
@@ -152,7 +403,16 @@ def enc_case(rng, fd):
                 x.append([ks, rng.choice([1, -1, 255, 0x5A5A, rng.getrandbits(rng.randint(1, 63)) | 1])])
         if x:
             c["x"] = x
+    if rng.random() < 0.5:
+        c["m"] = gen_matrix(rng)
     return {"op": "enc", "c": c}
+
+
+def decenc_case(rng, fd):
+    c = {"f": fd, "data": F.rand_payload(rng, fd["size"])}
+    if rng.random() < 0.5:
+        c["m"] = gen_matrix(rng)
+    return {"op": "decenc", "c": c}
 
 
 def gen(rng, tier, shard, nshards):
@@ -162,7 +422,7 @@ def gen(rng, tier, shard, nshards):
         if rng.random() < 0.65:
             yield enc_case(rng, fd)
         else:
-            yield {"op": "decenc", "c": {"f": fd, "data": F.rand_payload(rng, fd["size"])}}
+            yield decenc_case(rng, fd)
     if shard == 0:
         for n in (1, 2):
             for size in range(1, 8 * n + 1):
@@ -189,7 +449,7 @@ def neighbours(case, rng, shard, nshards):
         if rng.random() < 0.6:
             yield enc_case(rng, fd)
         else:
-            yield {"op": "decenc", "c": {"f": fd, "data": F.rand_payload(rng, fd["size"])}}
+            yield decenc_case(rng, fd)
 
 
 def _values(fr, pairs):
@@ -253,6 +513,8 @@ def observe(case):
         r = F.observe_encode(fr, pairs)
         if "ok" in r:
             odd = _other_ways(fr, c["f"], _values(fr, pairs), r["ok"])
+            if odd is None and "m" in c:
+                odd = matrix_history(fr, c["f"], c["m"], dict(_values(fr, pairs)), r["ok"], r["ok"])
             if odd is not None:
                 return {"err": odd}
             d = F.observe_decode(fr, r["ok"])
@@ -281,6 +543,10 @@ def observe(case):
         return {"err": "exc:matrix-decode-encode-raised-" + F.errname(e)}
     if list(b2) != list(b):
         return {"err": "exc:matrix-decode-encode-differs-from-frame-decode-encode"}
+    if "m" in c:
+        odd = matrix_history(fr, c["f"], c["m"], {k: v.raw_value for k, v in d.items()}, c["data"], list(b))
+        if odd is not None:
+            return {"err": odd}
     return {"ok": list(b)}
 
 
@@ -300,6 +566,32 @@ def features(case, impl):
         for how, f in (("casefold", str.casefold), ("lower", str.lower), ("strip", str.strip)):
             if len({f(n_) for n_ in names}) < len(names):
                 yield "names-equal-after=" + how
+    m = c.get("m")
+    yield "matrix-history=" + ("no" if m is None else "%d-steps" % min(len(m["h"]), 6))
+    if m is not None:
+        num, ext = m["id"]
+        yield "matrix:frame-id=" + ("29-bit" if ext else "11-bit") + ("/zero" if num == 0 else "/above-0x7FF" if num > STD_MAX else "")
+        at_end = _sim(m)
+        others = [i for k, i in at_end.items() if k != "F"]
+        if (num, not ext) in others:
+            yield "matrix:same-number-other-width-present"
+        if any(i[0] & STD_MAX == num & STD_MAX and i[0] != num for i in others):
+            yield "matrix:same-low-11-bits-present"
+        fpos = [i for i, st in enumerate(m["h"]) if st[0] == "F"][0]
+        adds = [i for i, st in enumerate(m["h"]) if st[0] == "add"]
+        if adds:
+            yield "matrix:frame-added=" + ("first" if fpos < min(adds) else "last" if fpos > max(adds) else "between")
+        for st in m["h"]:
+            if st[0] == "rm":
+                was = [a for a in m["h"] if a[0] == "add" and a[1] == st[1]][0]
+                yield "matrix:removed(%s)-%s" % (["remove_frame", "del_frame", "del_frame-by-name"][st[2]],
+                                                "same-id" if was[2:4] == m["id"] else "same-number" if was[2] == num else "other")
+            elif st[0] == "id":
+                yield "matrix:id-changed-after-add(%s)-of-%s" % (["new-object", "in-place"][st[4]], "the-frame" if st[1] == "F" else "another")
+            elif st[0] == "add" and st[5]:
+                yield "matrix:header-id-equals-number"
+            elif st[0] in ("look", "use"):
+                yield "matrix:" + st[0] + "-in-between"
     if case["op"] == "enc":
         yield "supplied=%d" % len(c["d"])
         yield "foreign-keys=%d" % len(c.get("x", []))
@@ -326,6 +618,16 @@ def nontrivial(case, impl):
 def shrink_candidates(case):
     c = case["c"]
     fd = c["f"]
+    m = c.get("m")
+    if m is not None:
+        yield {"op": case["op"], "c": {k: v for k, v in c.items() if k != "m"}}
+        for i in range(len(m["h"])):
+            m2 = {"id": m["id"], "h": m["h"][:i] + m["h"][i + 1:]}
+            if matrix_ok(m2):
+                yield {"op": case["op"], "c": dict(c, m=m2)}
+        for i, st in enumerate(m["h"]):
+            if st[0] == "add" and (st[4] != 1 or st[5]):
+                yield {"op": case["op"], "c": dict(c, m={"id": m["id"], "h": m["h"][:i] + [st[:4] + [1, None]] + m["h"][i + 1:]})}
     if case["op"] == "enc":
         x = c.get("x", [])
 
@@ -333,6 +635,8 @@ def shrink_candidates(case):
             cc = {"f": fd_, "d": d_}
             if x_:
                 cc["x"] = x_
+            if m is not None:
+                cc["m"] = m
             return {"op": "enc", "c": cc}
         for i in range(len(x)):
             yield mk(fd, c["d"], x[:i] + x[i + 1:])
@@ -353,7 +657,7 @@ def shrink_candidates(case):
     else:
         for i in range(len(fd["sigs"])):
             if len(fd["sigs"]) > 1:
-                yield {"op": "decenc", "c": {"f": dict(fd, sigs=fd["sigs"][:i] + fd["sigs"][i + 1:]), "data": c["data"]}}
+                yield {"op": "decenc", "c": dict(c, f=dict(fd, sigs=fd["sigs"][:i] + fd["sigs"][i + 1:]))}
 
 
 def classify(case, impl, spec):
